@@ -26,6 +26,11 @@ NAME_FAMILIES = [
     "/usr/etc/app/zq{tag}", "/lib/x86_64-linux-gnu/zq{tag}", "/bin/zq{tag}", "/sbin/zq{tag}", "/lib64/zq{tag}", "/usr/lib32/app/zq{tag}", "/home/{user}/.local/state/app/zq{tag}",
     "/home/{user}/.local/bin/zq{tag}", "/home/{user}/.local/lib/app/zq{tag}", "/sys/kernel/mm/zq{tag}", "/proc/{pid}/fd/zq{tag}", "/dev/pts/zq{tag}", "/run/systemd/zq{tag}",
     "/var/lib/flatpak/app/zq{tag}", "/usr/share/app/x86_64/zq{tag}", "/home/{user}/snap/app/common/zq{tag}",
+    # one family per alternative of the tool's uuid / hex-run / digit-run rewrites (separators, letter case and run lengths drawn per record)
+    "/var/lib/app/volumes/vol_{uuid}/zq{tag}", "/run/media/{user}/{uuid}/zq{tag}", "/var/lib/docker/overlay2/{hex64}/zq{tag}",
+    "/var/lib/app/objects/{hex38}/zq{tag}", "/var/cache/fontconfig/{hex32}-le64.cache-zq{tag}", "/var/lib/app/{hex16}/zq{tag}",
+    "/var/lib/app/seq/{int64}/zq{tag}", "/var/lib/app/seq/{int32}/zq{tag}", "/var/lib/app/seq/{int16}/zq{tag}", "/var/log/app/{int10}/zq{tag}",
+    "/var/log/app/{int8}/zq{tag}", "/var/spool/app/{int6}/zq{tag}",
     "/usr/share/icons/Adwaita/16x16/zq{tag}.png", "/etc/ssl/certs/ca-certificates-zq{tag}.crt", "/home/{user}/Téléchargements/zq{tag}", "/media/{user}/USB DISK/zq{tag}",
 ]
 USERS = ["alice", "bob", "user1", "Ünï"]
@@ -85,8 +90,13 @@ def gen_record(rng, tag, cls=None, status=None, profile=None, tame=False):
     ts_ = tagstr(tag)
     comm = "c" + ts_
     user = rng.choice(USERS[:3] if tame else USERS)
+    hexrun = lambda n: "".join(rng.choice("0123456789abcdef" if rng.random() < 0.8 else "0123456789ABCDEF") for _ in range(n))
+    digits = lambda n: "".join(rng.choice("0123456789") for _ in range(n))
+    uuid = hexrun(8) + rng.choice("-_") + hexrun(4) + rng.choice("-_") + hexrun(4) + rng.choice("-_") + hexrun(4) + rng.choice("-_") + hexrun(12)
     name = rng.choice(NAME_FAMILIES).format(user=user, pid=rng.randint(2, 99999), tid=rng.randint(2, 99999), uid=rng.choice([1000, 1001, 0, 120]), tag=ts_,
-                                             arch=rng.choice(["amd64", "x86_64", "i386", "i686", "arm64", "aarch64", "riscv64", "armhf"]))
+                                             arch=rng.choice(["amd64", "x86_64", "i386", "i686", "arm64", "aarch64", "riscv64", "armhf"]),
+                                             uuid=uuid, hex64=hexrun(64), hex38=hexrun(38), hex32=hexrun(32), hex16=hexrun(16),
+                                             int64=digits(64), int32=digits(32), int16=digits(16), int10=digits(10), int8=digits(8), int6=digits(6))
     f = [("apparmor", status)]
     if cls in ("file", "exec", "link"):
         op = {"exec": "exec", "link": "link"}.get(cls) or rng.choice([o for o in FILE_OPS if o not in ("exec", "link")])
